@@ -201,13 +201,16 @@ func (r *TypeRegistry) Convert(typ schema.Type) (*Type, error) {
 		if !field.IsValid() || field.Kind() == reflect.Ptr && field.IsNil() {
 			continue
 		}
+		// A zero value is meaningful (and kept) if the attribute is required, or if it was
+		// set explicitly, i.e. the field is a non-nil pointer (e.g. time(0), varbinary(0)).
+		explicit := attr.Required || field.Kind() == reflect.Ptr
 		if field = reflect.Indirect(field); field.Kind() != attr.Kind {
 			return nil, errors.New("incompatible kinds on typespec attr and typefield")
 		}
 		switch attr.Kind {
 		case reflect.Int, reflect.Int64:
 			v := int(field.Int())
-			if v == 0 && len(s.Attrs) == 0 {
+			if v == 0 && len(s.Attrs) == 0 && !explicit {
 				break
 			}
 			s.Attrs = append([]*Attr{IntAttr(attr.Name, v)}, s.Attrs...)
